@@ -29,7 +29,58 @@ type Promise struct {
 	fulfillR []*reaction
 	rejectR  []*reaction
 	Handled  bool
-	Cls      Cls // what `promise.constructor` evaluates to
+	Cls      Cls       // the class whose prototype the promise inherits from (what an inherited `constructor` evaluates to)
+	ctorOv   *CtorSpec // own "constructor" property shadowing the inherited one
+}
+
+// ctorKind is the value of Get(promise, "constructor") in this model: one of the three promise classes, Object, or undefined.
+type ctorKind int
+
+const (
+	ckPromise ctorKind = iota
+	ckP
+	ckQ
+	ckObject
+	ckUndef
+)
+
+// getCtor is Get(p, "constructor"): an own property (data, or an accessor whose getter logs) shadows %Promise.prototype%.constructor.
+// ok=false: the getter threw; thrown is the value.
+func (m *M) getCtor(p *Promise) (k ctorKind, thrown Value, ok bool) {
+	ov := p.ctorOv
+	if ov == nil {
+		return ctorKind(p.Cls), nil, true
+	}
+	if ov.Getter {
+		m.log(fmt.Sprintf("gc%d", ov.ID))
+		if ov.Throws {
+			return ckUndef, Num(ov.N), false
+		}
+	}
+	switch ov.Val {
+	case CvObject:
+		return ckObject, nil, true
+	case CvPromise:
+		return ckPromise, nil, true
+	case CvMyP:
+		return ckP, nil, true
+	case CvMyQ:
+		return ckQ, nil, true
+	}
+	return ckUndef, nil, true
+}
+
+// speciesConstructor is 7.3.22 SpeciesConstructor(p, %Promise%): Get constructor; undefined -> default; Get @@species
+// (Object has none -> default; Promise and MyP inherit the getter returning `this`; MyQ's own getter returns Promise).
+func (m *M) speciesConstructor(p *Promise) (c Cls, thrown Value, ok bool) {
+	k, thrown, ok := m.getCtor(p)
+	if !ok {
+		return ClsPromise, thrown, false
+	}
+	if k == ckP {
+		return ClsP, nil, true
+	}
+	return ClsPromise, nil, true
 }
 
 type Thenable struct {
@@ -401,13 +452,6 @@ func (m *M) newPromiseCapability(cls Cls) *capability {
 	return c
 }
 
-func species(cls Cls) Cls {
-	if cls == ClsQ {
-		return ClsPromise
-	}
-	return cls
-}
-
 // ---- 27.2.5.4 Promise.prototype.then, 27.2.5.4.1 PerformPromiseThen ----
 
 func (m *M) builtinThen() *Func {
@@ -416,7 +460,10 @@ func (m *M) builtinThen() *Func {
 		if !ok {
 			return &ErrObj{Ctor: "TypeError"}, false
 		}
-		c := species(p.Cls)
+		c, thrown, ok := m.speciesConstructor(p)
+		if !ok {
+			return thrown, false
+		}
 		cap := m.newPromiseCapability(c)
 		return m.performPromiseThen(p, arg(args, 0), arg(args, 1), cap), true
 	}}
@@ -473,7 +520,10 @@ func (m *M) Finally(this Value, onFinally Value) (Value, bool) {
 	if !ok {
 		return &ErrObj{Ctor: "TypeError"}, false
 	}
-	c := species(p.Cls)
+	c, thrown, ok := m.speciesConstructor(p)
+	if !ok {
+		return thrown, false
+	}
 	fin, callable := onFinally.(*Func)
 	var thenFinally, catchFinally Value
 	if !callable {
@@ -485,7 +535,10 @@ func (m *M) Finally(this Value, onFinally Value) (Value, bool) {
 			if !ok {
 				return result, false
 			}
-			promise := m.promiseResolve(c, result)
+			promise, ok := m.promiseResolve(c, result)
+			if !ok {
+				return promise, false
+			}
 			valueThunk := &Func{Call: func(Value, []Value) (Value, bool) { return value, true }}
 			return m.invokeThen(promise, valueThunk)
 		}}
@@ -495,7 +548,10 @@ func (m *M) Finally(this Value, onFinally Value) (Value, bool) {
 			if !ok {
 				return result, false
 			}
-			promise := m.promiseResolve(c, result)
+			promise, ok := m.promiseResolve(c, result)
+			if !ok {
+				return promise, false
+			}
 			thrower := &Func{Call: func(Value, []Value) (Value, bool) { return reason, false }}
 			return m.invokeThen(promise, thrower)
 		}}
@@ -504,13 +560,21 @@ func (m *M) Finally(this Value, onFinally Value) (Value, bool) {
 }
 
 // 27.2.4.7.1 PromiseResolve ( C, x )
-func (m *M) promiseResolve(c Cls, x Value) Value {
-	if xp, ok := x.(*Promise); ok && xp.Cls == c {
-		return xp
+// ok=false: abrupt completion (the "constructor" getter threw), the first result is the thrown value.
+func (m *M) promiseResolve(c Cls, x Value) (Value, bool) {
+	// 1. If IsPromise(x): xConstructor = ? Get(x, "constructor"); if SameValue(xConstructor, C) return x
+	if xp, ok := x.(*Promise); ok {
+		k, thrown, ok := m.getCtor(xp)
+		if !ok {
+			return thrown, false
+		}
+		if k == ctorKind(c) {
+			return xp, true
+		}
 	}
 	cap := m.newPromiseCapability(c)
 	cap.resolve.Call(Undefined, []Value{x})
-	return cap.promise
+	return cap.promise, true
 }
 
 // 27.2.4.6 Promise.reject
@@ -535,7 +599,12 @@ func (m *M) combinator(kind StaticKind, c Cls, items []Value) Value {
 		if kind != StRace {
 			values.Elems = append(values.Elems, Undefined)
 		}
-		nextPromise := m.promiseResolve(c, next)
+		// nextPromise = ? Call(promiseResolve, C, next); an abrupt completion ends the iteration and rejects the capability (IfAbruptRejectPromise)
+		nextPromise, ok := m.promiseResolve(c, next)
+		if !ok {
+			cap.reject.Call(Undefined, []Value{nextPromise})
+			return cap.promise
+		}
 		alreadyCalled := false
 		element := func(store func(v Value) Value, done func()) *Func {
 			return &Func{Call: func(this Value, args []Value) (Value, bool) {
@@ -571,7 +640,10 @@ func (m *M) combinator(kind StaticKind, c Cls, items []Value) Value {
 		if kind != StRace {
 			remaining++
 		}
-		m.invokeThen(nextPromise, onF, onR)
+		if thrown, ok := m.invokeThen(nextPromise, onF, onR); !ok {
+			cap.reject.Call(Undefined, []Value{thrown})
+			return cap.promise
+		}
 	}
 	if kind != StRace {
 		remaining--
@@ -623,7 +695,13 @@ func (m *M) asyncRun(st *asyncState, mode int, val Value) {
 			switch mode {
 			case resumeNone:
 				v := m.eval(s.V)
-				promise := m.promiseResolve(ClsPromise, v).(*Promise)
+				pv, ok := m.promiseResolve(ClsPromise, v)
+				if !ok {
+					// Await step 2: ? PromiseResolve - the abrupt completion is thrown at the await expression
+					mode, val = resumeThrow, pv
+					continue
+				}
+				promise := pv.(*Promise)
 				onF := &Func{Call: func(this Value, args []Value) (Value, bool) {
 					m.asyncRun(st, resumeValue, arg(args, 0))
 					return Undefined, true
@@ -653,7 +731,7 @@ func (m *M) asyncRun(st *asyncState, mode int, val Value) {
 			st.cap.reject.Call(Undefined, []Value{m.eval(s.V)})
 			return
 		case ADo:
-			m.exec(s.Do)
+			m.exec(s.Do) // OpCall / OpGoCall only: cannot throw
 			st.pc++
 		}
 	}
